@@ -57,7 +57,9 @@ CLAIMED["C03"] = dict(
     level="exploration",
     text="Same simulated runs as C01 with a reference model: every launched or re-emitted packet segment is "
          "recorded (hooks H4/H5) and re-traced sequentially through one undivided DensitySubGrid holding the same "
-         "cell contents (harness-side periodic wrapping); per-cell estimators after folding the copies, "
+         "cell contents (harness-side periodic wrapping); per-cell estimators of all fourteen ions and the "
+         "hydrogen heating term after folding the copies (metal abundances are non-zero in most runs with "
+         "Verner data, so that these estimators are not trivially zero), "
          "absorbed/escaped outcome and absorption position must agree within a round-off budget derived per "
          "packet; every hand-over is checked against the geometry (opposite element, geometric neighbour or a "
          "copy of it, same position on the entry boundary); neighbour tables of originals and copies are checked "
@@ -72,7 +74,9 @@ CLAIMED["C03"] = dict(
 CLAIMED["C19"] = dict(
     level="exploration",
     text="Generated (start, end, minimum, maximum) settings and histories of requested steps (constant, growing, "
-         "shrinking, CFL-like, exact powers of two and their floating-point neighbours, 30 decades) with "
+         "shrinking, CFL-like, exact powers of two and their floating-point neighbours, 30 decades, requests "
+         "around the configured minimum; limits drawn as arbitrary values or as exact power-of-two fractions of "
+         "the interval) with "
          "save/restore faults at seeded positions through the real RestartWriter/RestartReader (including restore "
          "from a stale dump followed by replay); every advance() is compared with an exact integer reference model "
          "of the time line (power-of-two step, divides the remainder, never beyond the end, has-next exactly at "
